@@ -17,7 +17,7 @@ from .mem import *      # noqa
 QUERY_TIMEOUT_MS = int(os.environ.get('VERIF_CVC_TIMEOUT_MS', '60000'))
 MAX_PATHS = 4000
 TRACE = bool(os.environ.get('VERIF_CVC_TRACE'))
-SAFETY_KINDS = ('in_bounds', 'null_deref', 'use_after_free', 'double_free', 'free_valid', 'leak', 'no_overflow', 'shift_range',
+SAFETY_KINDS = ('frame', 'in_bounds', 'null_deref', 'use_after_free', 'double_free', 'free_valid', 'leak', 'no_overflow', 'shift_range',
                 'div_by_zero', 'memcpy_overlap', 'assert', 'unwind')
 FUNCTIONAL_KINDS = ('ensures', 'requires_at_call', 'loop_inv_entry', 'loop_inv_preserved', 'loop_variant', 'lemma')
 
@@ -136,6 +136,19 @@ class FunctionRun:
         e.st.ghost['alloc_failed'] = z3.BoolVal(False)
         f.entry = e.st.copy()
         e.st.written = set()
+        self.entry_mark = Region._n[0]
+        # frame: leaves the contract allows the function to write
+        self.may_write = set()
+        for m in c.modifies:
+            root = m.split('.')[0].split('[')[0]
+            if root in self.config.get('null', []):
+                continue
+            try:
+                for r in e.resolve_modifies(m, ctx):
+                    for leaf in r.all_leaves():
+                        self.may_write.add(leaf.id)
+            except (ClauseError, Unsupported) as ex:
+                raise Unsupported('modifies clause %r: %s' % (m, ex))
         self.entry_info = info
         return f
 
@@ -261,6 +274,15 @@ class FunctionRun:
                 e.assume(g)
         for en, etext in c.ensures.items():
             e.oblige('ensures', en, tr.clause(etext), etext, self.node)
+        # frame: only the regions named in `modifies` (and objects created during the call) were written
+        for rid in sorted(e.st.written):
+            if rid <= self.entry_mark and rid not in self.may_write:
+                r = Region.by_id.get(rid)
+                if r is not None and r.stack:
+                    continue
+                e.oblige('frame', r.name if r is not None else str(rid), False,
+                         'the function writes only what its contract lists under modifies (wrote %s)' % (r.name if r is not None else rid), self.node)
+        e.oblige('frame', 'modifies', True, 'the function writes only what its contract lists under modifies', self.node)
         # leaks: every block allocated during the call is freed or handed over
         keep = set()
         for ex in c.escapes:
@@ -437,15 +459,35 @@ def check(pc, goal, timeout_ms):
     seed = int(os.environ.get('VERIF_SEED', '0') or 0)
     total = 0.0
     sizes = [term_size(p) for p in pc]
-    light = [p for p, (n, h) in zip(pc, sizes) if n <= 80 and not h]
+    syms = [symbols(p) for p in pc]
     gs = symbols(goal)
-    near = [p for p, (n, h) in zip(pc, sizes) if (n <= 80 and not h) or (n <= 1500 and symbols(p) & gs)]
+
+    def select(max_size, allow_heavy, depth):
+        want = set(gs)
+        chosen = [False] * len(pc)
+        for _ in range(depth):
+            new = set()
+            for i, p in enumerate(pc):
+                if chosen[i]:
+                    continue
+                n, h = sizes[i]
+                if n > max_size or (h and not allow_heavy):
+                    continue
+                if syms[i] & want or not syms[i]:
+                    chosen[i] = True
+                    new |= syms[i]
+            if not new - want:
+                break
+            want |= new
+        return [p for p, c in zip(pc, chosen) if c]
+
     tried = set()
-    for name, sub in (('light', light), ('near', near)):
+    for name, (mx, heavy, depth) in (('L2', (80, False, 2)), ('L3', (200, False, 3)), ('L4', (1500, True, 2))):
+        sub = select(mx, heavy, depth)
         if len(sub) == len(pc) or len(sub) in tried:
             continue
         tried.add(len(sub))
-        r, dt, s = _run('simp', sub, goal, min(4000, timeout_ms * 0.08), seed)
+        r, dt, s = _run('simp', sub, goal, min(8000, timeout_ms * 0.12), seed)
         total += dt
         if r == z3.unsat:
             return 'unsat', total, None, '%s:%d/%d' % (name, len(sub), len(pc))
